@@ -198,6 +198,7 @@ pub fn run_topic(topic: &str, cx: &mut Ctx) -> bool {
         "total" => total(cx),
         "conv" => conv(cx),
         "strings" => strings(cx),
+        "time" => time(cx),
         _ => return false,
     }
     true
@@ -1817,5 +1818,196 @@ pub fn strings(cx: &mut Ctx) {
                 }
             }
         }
+    }
+}
+
+// ---------------------------------------------------------------------------------------------
+// C16: time arithmetic, calendar accessors, zones, units
+
+fn ts_from_civil(y: i64, m: i64, d: i64, h: i64, mi: i64, s: i64, ms: i64) -> V {
+    // days from civil (Hinnant), independent of chrono
+    let yy = if m <= 2 { y - 1 } else { y };
+    let era = if yy >= 0 { yy } else { yy - 399 } / 400;
+    let yoe = yy - era * 400;
+    let doy = (153 * (if m > 2 { m - 3 } else { m + 9 }) + 2) / 5 + d - 1;
+    let doe = yoe * 365 + yoe / 4 - yoe / 100 + doy;
+    let days = era * 146097 + doe - 719468;
+    V::Ts(((days * 86400 + h * 3600 + mi * 60 + s) as i128) * 1_000_000_000 + ms as i128 * 1_000_000)
+}
+
+pub const ZONES: &[&str] = &["UTC", "US/Pacific", "America/New_York", "Europe/London", "Europe/Berlin", "Asia/Kolkata", "Asia/Kathmandu", "Australia/Lord_Howe", "Pacific/Chatham", "Pacific/Kiritimati",
+    "America/St_Johns", "Asia/Tokyo", "Africa/Cairo", "America/Sao_Paulo", "Pacific/Apia", "Etc/GMT+12", "Europe/Moscow", "Asia/Tehran"];
+const BAD_ZONES: &[&str] = &["", "Mars/Olympus", "utc ", "US/Pacifik", "+01:00", "Europe", "Z"];
+const ACCESSORS: &[&str] = &["getFullYear", "getMonth", "getDate", "getDayOfMonth", "getDayOfYear", "getDayOfWeek", "getHours", "getMinutes", "getSeconds", "getMilliseconds"];
+
+pub fn time(cx: &mut Ctx) {
+    let mut instants: Vec<V> = vec![V::Ts(0), V::Ts(-1), V::Ts(1), V::Ts(-1_000_000), V::Ts(999_000_000), V::Ts(TS_MIN), V::Ts(TS_MAX)];
+    for (y, m, d) in [(-1i64, 12i64, 31i64), (0, 1, 1), (0, 2, 29), (1, 1, 1), (1, 12, 31), (1582, 10, 10), (1600, 2, 29), (1900, 2, 28), (1900, 3, 1), (1969, 12, 31), (1970, 1, 1), (1999, 12, 31), (2000, 1, 1), (2000, 2, 29), (2000, 12, 31),
+        (2023, 12, 31), (2024, 1, 1), (2024, 2, 28), (2024, 2, 29), (2024, 3, 1), (2024, 12, 31), (2025, 6, 15), (9999, 12, 31), (10000, 1, 1), (2024, 3, 10), (2024, 11, 3), (2024, 3, 31), (2024, 10, 27)] {
+        instants.push(ts_from_civil(y, m, d, 0, 0, 0, 0));
+        instants.push(ts_from_civil(y, m, d, 23, 59, 59, 999));
+        instants.push(ts_from_civil(y, m, d, 12, 30, 15, 250));
+    }
+    // one instant per weekday
+    for k in 0..7 {
+        instants.push(ts_from_civil(2024, 9, 15 + k, 6, 0, 0, 0));
+    }
+    for _ in 0..cx.n {
+        instants.push(rand_ts(&mut cx.rng));
+        // within the window where zone offsets are compared (1985..2026)
+        instants.push(V::Ts(cx.rng.range(473385600, 1767225600) as i128 * 1_000_000_000 + cx.rng.below(1000) as i128 * 1_000_000));
+    }
+    for t in instants.iter() {
+        for f in ACCESSORS {
+            let mut c = cx.case(mcall(id("t"), f, vec![]));
+            c.bind.insert("t".into(), t.clone());
+            c.forms = forms(&["bound"]);
+            cx.out(c);
+            let mut c = cx.case(mcall(id("t"), f, vec![lit(V::Str("UTC".into()))]));
+            c.bind.insert("t".into(), t.clone());
+            c.forms = forms(&["bound"]);
+            cx.out(c);
+        }
+        // zones: the driver adds the zone's offset at that instant from the system database
+        let nz = if cx.thorough { 6 } else { 2 };
+        for _ in 0..nz {
+            let z = cx.rng.pick_str(ZONES);
+            let f = cx.rng.pick_str(ACCESSORS);
+            let mut c = cx.case(mcall(id("t"), f, vec![id("z")]));
+            c.bind.insert("t".into(), t.clone());
+            c.bind.insert("z".into(), V::Str(z.to_string()));
+            c.forms = forms(&["bound"]);
+            c.extra = serde_json::json!({"zone": z});
+            cx.out(c);
+        }
+        let facc = cx.rng.pick_str(ACCESSORS);
+        let mut c = cx.case(mcall(id("t"), facc, vec![id("z")]));
+        c.bind.insert("t".into(), t.clone());
+        c.bind.insert("z".into(), V::Str(cx.rng.pick_str(BAD_ZONES).to_string()));
+        c.forms = forms(&["bound"]);
+        c.extra = serde_json::json!({"law": "reerr"});
+        cx.out(c);
+    }
+    // DST transitions of two zones, +-1 s (2024): US/Pacific 2024-03-10T10:00:00Z and 2024-11-03T09:00:00Z; Europe/Berlin 2024-03-31T01:00:00Z, 2024-10-27T01:00:00Z
+    for (z, secs) in [("US/Pacific", 1710064800i64), ("US/Pacific", 1730624400), ("Europe/Berlin", 1711846800), ("Europe/Berlin", 1729990800), ("Australia/Lord_Howe", 1712415600), ("America/St_Johns", 1710048600)] {
+        for d in [-1i64, 0, 1] {
+            for f in ["getHours", "getMinutes", "getDate", "getDayOfWeek"] {
+                let mut c = cx.case(mcall(id("t"), f, vec![id("z")]));
+                c.bind.insert("t".into(), V::Ts((secs + d) as i128 * 1_000_000_000));
+                c.bind.insert("z".into(), V::Str(z.to_string()));
+                c.forms = forms(&["bound"]);
+                c.extra = serde_json::json!({"zone": z});
+                cx.out(c);
+            }
+        }
+    }
+    // durations
+    let mut durs: Vec<V> = vec![V::Dur(0), V::Dur(1), V::Dur(-1), V::Dur(999_999), V::Dur(1_000_000), V::Dur(-1_500_000_000), V::Dur(1_500_000_000), V::Dur(3_599_999_000_000), V::Dur(3_600_000_000_000), V::Dur(-3_600_000_000_001),
+        V::Dur(90_061_001_000_000), V::Dur(-90_061_001_000_000), V::Dur(i64::MAX as i128 * 1_000_000), V::Dur(-(i64::MAX as i128) * 1_000_000), V::Dur(59_999_000_000), V::Dur(60_000_000_000)];
+    for _ in 0..cx.n {
+        durs.push(rand_dur(&mut cx.rng));
+    }
+    for d in durs.iter() {
+        for f in ["getHours", "getMinutes", "getSeconds", "getMilliseconds", "getDate"] {
+            let mut c = cx.case(mcall(id("d"), f, vec![]));
+            c.bind.insert("d".into(), d.clone());
+            c.forms = forms(&["bound"]);
+            cx.out(c);
+        }
+    }
+    // arithmetic laws and ranges (decided exactly by the specification)
+    for _ in 0..(cx.n * 2 + 200) {
+        let t1 = rand_ts(&mut cx.rng);
+        let t2 = rand_ts(&mut cx.rng);
+        let d1 = rand_dur(&mut cx.rng);
+        let d2 = rand_dur(&mut cx.rng);
+        for t in [
+            bin("==", bin("-", bin("+", id("t1"), id("d1")), id("d1")), id("t1")),
+            bin("==", bin("+", bin("-", id("t1"), id("t2")), id("t2")), id("t1")),
+            bin("==", bin("-", bin("+", id("d1"), id("d2")), id("d2")), id("d1")),
+            bin("<", id("t1"), id("t2")),
+            bin("<=", id("d1"), id("d2")),
+            bin("+", id("t1"), id("d1")),
+            bin("-", id("t1"), id("t2")),
+            bin("+", id("d1"), id("t1")),
+            bin("-", id("d1"), id("d2")),
+        ] {
+            let mut c = cx.case(t);
+            c.bind.insert("t1".into(), t1.clone());
+            c.bind.insert("t2".into(), t2.clone());
+            c.bind.insert("d1".into(), d1.clone());
+            c.bind.insert("d2".into(), d2.clone());
+            c.forms = forms(&["bound"]);
+            cx.out(c);
+        }
+    }
+    // timestamp() / duration() constructors
+    for s in ["2024-02-29T12:34:56Z", "2024-02-29T12:34:56.789Z", "2024-02-29T12:34:56+05:30", "2024-02-29t12:34:56z", "1970-01-01T00:00:00Z", "0001-01-01T00:00:00Z", "9999-12-31T23:59:59.999999999Z", "2023-02-29T00:00:00Z", "2024-13-01T00:00:00Z",
+        "2024-02-29T24:00:00Z", "2024-02-29 12:34:56Z", "2024-02-29", "abc", "", "2024-02-29T12:34:56", "2024-02-29T12:34:56-23:59", "1969-12-31T23:59:59.5Z"] {
+        let mut c = cx.case(call("timestamp", vec![id("s")]));
+        c.bind.insert("s".into(), V::Str(s.to_string()));
+        c.forms = forms(&["bound", "lit"]);
+        cx.out(c);
+        let mut c = cx.case(mcall(call("timestamp", vec![id("s")]), "getFullYear", vec![]));
+        c.bind.insert("s".into(), V::Str(s.to_string()));
+        c.forms = forms(&["bound"]);
+        cx.out(c);
+    }
+    for v in [V::Int(0), V::Int(-1), V::Int(1_700_000_000), V::Int(253402300799), V::Int(253402300800), V::Int(-62135596800), V::Int(-62135596801), V::Int(8210266876799), V::Int(8210266876800), V::Int(-8334601228800), V::Int(-8334601228801), V::Int(i64::MAX), V::Int(i64::MIN), V::Uint(5), V::Uint(u64::MAX), V::Dbl(1.0), V::Bool(true)] {
+        for f in ["timestamp", "duration"] {
+            let mut c = cx.case(call(f, vec![id("x")]));
+            c.bind.insert("x".into(), v.clone());
+            c.forms = forms(&["bound", "lit"]);
+            cx.out(c);
+        }
+    }
+    for (a, b) in [(0i64, 0i64), (1, 500_000_000), (-1, 500_000_000), (5, 999_999_999), (5, 1_000_000_000), (5, -1), (i64::MAX / 1000, 0), (i64::MAX, 0), (i64::MIN, 0)] {
+        let mut c = cx.case(call("duration", vec![id("a"), id("b")]));
+        c.bind.insert("a".into(), V::Int(a));
+        c.bind.insert("b".into(), V::Int(b));
+        c.forms = forms(&["bound", "lit"]);
+        cx.out(c);
+    }
+    // units: agreement with the exact definitions, identity, inverse, transitivity, failures
+    let units: Vec<(&str, &str)> = vec![("kg", "kg"), ("g", "grams"), ("mg", "mg"), ("lb", "lbs"), ("oz", "ounce"), ("stone", "st"), ("ton", "tonne"), ("l", "liters"), ("ml", "ml"), ("gal", "gallon"), ("qt", "quart"), ("pt", "pints"),
+        ("cup", "cups"), ("m3", "m3"), ("ft3", "cu ft"), ("mps", "m/s"), ("kph", "km/h"), ("mph", "mph"), ("kn", "knots"), ("fps", "ft/s")];
+    let cat = |k: &str| match k { "kg" | "g" | "mg" | "lb" | "oz" | "stone" | "ton" => 0, "mps" | "kph" | "mph" | "kn" | "fps" => 2, _ => 1 };
+    for (ka, sa) in units.iter() {
+        for (kb, sb) in units.iter() {
+            let xs: Vec<V> = vec![V::Dbl(1.0), V::Int(3), V::Uint(1000), V::Dbl(cx.rng.range(1, 100000) as f64 / 7.0), V::Dbl(-2.5), V::Dbl(1e-9), V::Dbl(1e12)];
+            for x in xs.iter().take(if cx.thorough { 7 } else { 3 }) {
+                let mut c = cx.case(call("uomConvert", vec![id("x"), id("a"), id("b")]));
+                c.bind.insert("x".into(), x.clone());
+                c.bind.insert("a".into(), V::Str(sa.to_string()));
+                c.bind.insert("b".into(), V::Str(sb.to_string()));
+                c.forms = forms(&["bound"]);
+                c.extra = if cat(ka) == cat(kb) { serde_json::json!({"law":"uom","ua":ka,"ub":kb}) } else { serde_json::json!({"law":"reerr"}) };
+                cx.out(c);
+            }
+            if cat(ka) == cat(kb) {
+                // inverse within tolerance, evaluated by the implementation
+                let t = bin("<=", call("abs", vec![bin("-", call("uomConvert", vec![call("uomConvert", vec![id("x"), id("a"), id("b")]), id("b"), id("a")]), id("x"))]), bin("*", lit(V::Dbl(1e-9)), call("abs", vec![id("x")])));
+                let mut c = cx.case(t);
+                c.bind.insert("x".into(), V::Dbl(cx.rng.range(1, 100000) as f64 / 3.0));
+                c.bind.insert("a".into(), V::Str(sa.to_string()));
+                c.bind.insert("b".into(), V::Str(sb.to_string()));
+                c.forms = forms(&["bound"]);
+                c.extra = serde_json::json!({"law":"istrue"});
+                cx.out(c);
+            }
+        }
+    }
+    for (x, a, b, want) in [(100.0, "c", "f", 212.0), (0.0, "celsius", "K", 273.15), (-40.0, "F", "C", -40.0), (32.0, "f", "c", 0.0), (300.0, "k", "k", 300.0), (0.0, "k", "f", -459.67)] {
+        let t = bin("<=", call("abs", vec![bin("-", call("uomConvert", vec![lit(V::Dbl(x)), lit(V::Str(a.into())), lit(V::Str(b.into()))]), lit(V::Dbl(want)))]), lit(V::Dbl(1e-9)));
+        let mut c = cx.case(t);
+        c.forms = forms(&["bound"]);
+        c.extra = serde_json::json!({"law":"istrue"});
+        cx.out(c);
+    }
+    for (a, b) in [("kg", "parsec"), ("", "kg"), ("kg", "c"), ("furlong", "m/s"), ("c", "mph")] {
+        let mut c = cx.case(call("uomConvert", vec![lit(V::Dbl(1.0)), lit(V::Str(a.into())), lit(V::Str(b.into()))]));
+        c.forms = forms(&["bound"]);
+        c.extra = serde_json::json!({"law":"reerr"});
+        cx.out(c);
     }
 }
